@@ -134,7 +134,7 @@ impl Write for Stream {
 
 fn tcp_pair() -> std::io::Result<(TcpStream, TcpStream)> {
     // blocking std calls on the harness thread only
-    let l = std::net::TcpListener::bind("127.0.0.1:0")?;
+    let l = std::net::TcpListener::bind(lo0())?;
     let addr = l.local_addr()?;
     let c = std::net::TcpStream::connect(addr)?;
     let (s, _) = l.accept()?;
@@ -301,7 +301,7 @@ fn io(x: &mut Exec) -> Res {
 fn tcp(x: &mut Exec) -> Res {
     let n = x.rng.range(1, if x.thorough { 24 } else { 5 }) as usize;
     let v6 = x.rng.chance(1, 4);
-    let listener = TcpListener::bind(if v6 { "[::1]:0" } else { "127.0.0.1:0" }).map_err(|e| Fail::Inconclusive(format!("bind: {}", e)))?;
+    let listener = TcpListener::bind(if v6 { "[::1]:0".to_string() } else { lo0() }).map_err(|e| Fail::Inconclusive(format!("bind: {}", e)))?;
     let addr = listener.local_addr().unwrap();
     let grave: Grave = Default::default();
     let err = Arc::new(std::sync::Mutex::new(None::<String>));
@@ -502,8 +502,8 @@ fn dgram(x: &mut Exec) -> Res {
             g2.lock().unwrap().push(Box::new(b));
         });
     } else {
-        let a = UdpSocket::bind("127.0.0.1:0").map_err(|e| Fail::Inconclusive(format!("bind: {}", e)))?;
-        let b = UdpSocket::bind("127.0.0.1:0").map_err(|e| Fail::Inconclusive(format!("bind: {}", e)))?;
+        let a = UdpSocket::bind(lo0()).map_err(|e| Fail::Inconclusive(format!("bind: {}", e)))?;
+        let b = UdpSocket::bind(lo0()).map_err(|e| Fail::Inconclusive(format!("bind: {}", e)))?;
         let baddr = b.local_addr().unwrap();
         let (lens2, sd, g1) = (lens.clone(), sender_done.clone(), grave.clone());
         let mut r = x.rng.fork();
@@ -771,7 +771,7 @@ fn iocan(x: &mut Exec) -> Res {
         }
         1 => {
             peer = None;
-            let l = TcpListener::bind("127.0.0.1:0").map_err(|e| Fail::Inconclusive(format!("bind: {}", e)))?;
+            let l = TcpListener::bind(lo0()).map_err(|e| Fail::Inconclusive(format!("bind: {}", e)))?;
             let reg = reg.clone();
             x.spawn_co("target", move |act| {
                 let _t = Tracked::new(&reg, 0);
@@ -785,7 +785,7 @@ fn iocan(x: &mut Exec) -> Res {
         }
         _ => {
             peer = None;
-            let s = UdpSocket::bind("127.0.0.1:0").map_err(|e| Fail::Inconclusive(format!("bind: {}", e)))?;
+            let s = UdpSocket::bind(lo0()).map_err(|e| Fail::Inconclusive(format!("bind: {}", e)))?;
             let reg = reg.clone();
             x.spawn_co("target", move |act| {
                 let _t = Tracked::new(&reg, 0);
@@ -1041,7 +1041,7 @@ fn iochurn(x: &mut Exec) -> Res {
 /// with other time-outs, before and after the deadline of the cancelled operation has passed: the cancelled
 /// operation's timer must not make any later operation fail or return early
 fn iocant(x: &mut Exec) -> Res {
-    let sock = Arc::new(UdpSocket::bind("127.0.0.1:0").map_err(|e| Fail::Inconclusive(format!("bind: {}", e)))?);
+    let sock = Arc::new(UdpSocket::bind(lo0()).map_err(|e| Fail::Inconclusive(format!("bind: {}", e)))?);
     let addr = sock.local_addr().map_err(|e| Fail::Inconclusive(format!("addr: {}", e)))?;
     let d1 = x.rng.range(3, 8); // ms, the operation that gets cancelled
     let cancel_after_us = x.rng.below(d1 * 500);
@@ -1077,7 +1077,7 @@ fn iocant(x: &mut Exec) -> Res {
     let err = Arc::new(std::sync::Mutex::new(None::<String>));
     let (s2, e2, laters2) = (sock.clone(), err.clone(), laters.clone());
     x.spawn("later", true, move |act| {
-        let sender = std::net::UdpSocket::bind("127.0.0.1:0").unwrap();
+        let sender = std::net::UdpSocket::bind(lo0()).unwrap();
         for (i, (ms, with_data, pause)) in laters2.iter().enumerate() {
             nap(*pause);
             s2.set_read_timeout(Some(Duration::from_millis(*ms))).unwrap();
